@@ -70,8 +70,15 @@ package ovsdb
 
 //@ func ValidateUUID
 //@ pure
+// uuid syntax (regular expression matching): pure functions of the string
+//@ ghost func uuidNamed(string) bool
+//@ ghost func uuidValid(string) bool
 //@ func IsValidUUID
 //@ pure
+//@ ensures_assumed result == uuidValid(uuid)
+//@ func IsNamedUUID
+//@ pure
+//@ ensures_assumed result == uuidNamed(uuid)
 
 // A value in a uuid-typed position that is a mapped name is replaced by the
 // mapped UUID (as UUID or as string); anything else is returned unchanged.
